@@ -302,9 +302,8 @@ func (l *lexer) tryLexOperator() bool {
 	} else if isAlpha(op) {
 		// If operator is alphabetic (such as "in" or "is"),
 		// we avoid matching "include" or functions like "is_currently_on"
-		// For such operators to be valid, they need to have a space after.
-		lenOp := len(op)
-		if (l.pos+lenOp+1) <= len(l.input) && l.input[l.pos+lenOp:l.pos+lenOp+1] != " " {
+		// For such operators to be valid, they must not run into a name character.
+		if next := l.pos + len(op); next < len(l.input) && isName(l.input[next:next+1]) {
 			return false
 		}
 	} else if op == delimTrimWhitespace {
